@@ -330,7 +330,10 @@ class Abort(Exception):
 
 
 def _enter(s, program, part, case):
-    for num, parts in program:
+    # the lines are typed in ascending order, then the second one is typed again (an edited program: the order in
+    # which lines were entered is not the order of their numbers)
+    order = list(program) + (list(program[1:2]) if len(program) > 2 else [])
+    for num, parts in order:
         text = line_text(num, parts)
         if num == 0:
             text = text.replace(b'0 ', b'0', 1)
